@@ -454,21 +454,21 @@ Proof.
   - inversion H. constructor.
   - assert (HLr : kids_len a N r) by (intros k0 v0 Hin; apply HL; right; exact Hin).
     destruct (assoc_eqb (kassoc k) a) eqn:Ea.
-    + apply assoc_eqb_eq in Ea.
+    + pose proof (proj1 (assoc_eqb_eq _ _) Ea) as Ea'.
       destruct (kvals k) as [v|] eqn:Ev.
-      * assert (Lv : length v = N) by (apply (HL k v); [left; reflexivity|exact Ea|exact Ev]).
+      * assert (Lv : length v = N) by (apply (HL k v); [left; reflexivity|exact Ea'|exact Ev]).
         unfold np_delete in H. rewrite Lv, HN in H.
         rewrite format_length_eq in H by (rewrite select_length; rewrite ?keep_mask_length; auto).
-        destruct (rcv fl I a (count (keep_mask N I')) r) as [r' e] eqn:R. inversion H; subst.
+        destruct (rcv fl I a (count (keep_mask N I')) r) as [r' e] eqn:R. injection H as E1 E2; subst ks' e.
         constructor; [|apply IH; auto].
         unfold rcv_kid. simpl. rewrite Ev. repeat split; auto.
-        rewrite (proj2 (assoc_eqb_eq _ _) Ea). reflexivity.
+        rewrite Ea. reflexivity.
       * destruct (f_skip_valueless fl); [|inversion H].
-        destruct (rcv fl I a (count (keep_mask N I')) r) as [r' e] eqn:R. inversion H; subst.
+        destruct (rcv fl I a (count (keep_mask N I')) r) as [r' e] eqn:R. injection H as E1 E2; subst ks' e.
         constructor; [|apply IH; auto].
         unfold rcv_kid. rewrite Ev. repeat split; auto.
-        rewrite (proj2 (assoc_eqb_eq _ _) Ea). reflexivity.
-    + destruct (rcv fl I a (count (keep_mask N I')) r) as [r' e] eqn:R. inversion H; subst.
+        rewrite Ea. reflexivity.
+    + destruct (rcv fl I a (count (keep_mask N I')) r) as [r' e] eqn:R. injection H as E1 E2; subst ks' e.
       constructor; [|apply IH; auto].
       unfold rcv_kid. rewrite Ea. repeat split; auto.
 Qed.
@@ -560,7 +560,8 @@ Proof. apply map_length. Qed.
 
 Lemma cell_mask_closed m cs : closed m (cell_mask m cs) cs.
 Proof.
-  intros j c Hj Hc. unfold cell_mask in Hj. rewrite nth_error_map, Hc in Hj. simpl in Hj. inversion Hj as [E].
+  intros j c Hj Hc. unfold cell_mask in Hj. rewrite nth_error_map, Hc in Hj. simpl in Hj.
+  assert (E : forallb (fun v => nth v m false) c = true) by congruence.
   apply Forall_forall. intros v Hv. rewrite forallb_forall in E. apply nth_nth_error_true. apply E. exact Hv.
 Qed.
 
@@ -569,7 +570,8 @@ Lemma cell_mask_true m cs j c : nth_error cs j = Some c ->
   (nth_error (cell_mask m cs) j = Some true <-> Forall (fun v => nth_error m v = Some true) c).
 Proof.
   intros Hc. unfold cell_mask. rewrite nth_error_map, Hc. simpl. split.
-  - intros H. inversion H as [E]. apply Forall_forall. intros v Hv. rewrite forallb_forall in E.
+  - intros H. assert (E : forallb (fun v => nth v m false) c = true) by congruence.
+    apply Forall_forall. intros v Hv. rewrite forallb_forall in E.
     apply nth_nth_error_true. apply E. exact Hv.
   - intros H. f_equal. apply forallb_forall. intros v Hv. rewrite Forall_forall in H.
     apply nth_nth_error_true. apply H. exact Hv.
@@ -635,17 +637,17 @@ Proof.
   pose proof (rcv_done fl I I' AVertex (length (verts o)) (kids o) ks' (wf_kids_len_v o W) HN R) as HK.
   destruct W as (Wc & Wk & Wp). specialize (Wp Hp).
   unfold selection, vmask. simpl. rewrite Wp. simpl.
-  repeat split; auto using keep_mask_length.
-  - intros j c Hj. destruct j; discriminate.
-  - rewrite select_nil_r. reflexivity.
-  - clear R. induction HK as [|k k' r r' Hk HK IH]; constructor.
-    + destruct Hk as (A1 & A2 & A3 & A4). unfold sel_kid. repeat split; auto.
-      rewrite A4. assert (Hko : kid_ok o k) by (inversion Wk; assumption).
-      unfold kid_ok in Hko. rewrite Wp in Hko.
-      destruct (kassoc k); simpl; try reflexivity.
-      destruct (kvals k) as [v|]; simpl; [|reflexivity]. simpl in Hko.
-      destruct v; [|discriminate]. reflexivity.
-    + apply IH. inversion Wk; assumption.
+  split; [apply keep_mask_length|]. split; [reflexivity|].
+  split; [intros j c Hj; destruct j; discriminate|].
+  split; [reflexivity|]. split; [reflexivity|]. split; [rewrite ?select_nil_r; reflexivity|].
+  clear R H. induction HK as [|k k' r r' Hk HK IH]; constructor.
+  - destruct Hk as (A1 & A2 & A3 & A4). unfold sel_kid. repeat split; auto.
+    rewrite A4. assert (Hko : kid_ok o k) by (inversion Wk; assumption).
+    unfold kid_ok in Hko. rewrite Wp in Hko.
+    destruct (kassoc k); simpl; try reflexivity.
+    destruct (kvals k) as [v|]; simpl; [|reflexivity]. simpl in Hko.
+    destruct v; [|discriminate]. reflexivity.
+  - apply IH. inversion Wk; assumption.
 Qed.
 
 Lemma points_rv_failed fl o I e o' : wf o ->
